@@ -242,6 +242,9 @@ pub struct World {
     query_now: bool,
     /// blind burst in progress (see `Op::Blind`)
     pub blind: bool,
+    /// property whose oracle is being evaluated right now (0: an operation is executing);
+    /// a panic is attributed to it rather than to the operation that preceded the check
+    pub judging: u32,
 }
 
 /// Stored hash equals the from-scratch hash and every stored occupancy set matches the squares.
@@ -385,6 +388,7 @@ impl World {
             sparse_outcome: false,
             query_now: false,
             blind: false,
+            judging: 0,
         }
     }
 
@@ -652,6 +656,13 @@ impl World {
     }
 
     pub fn check_invariants(&mut self) -> Result<(), Violation> {
+        self.judging = C13;
+        let r = self.check_invariants_inner();
+        self.judging = 0;
+        r
+    }
+
+    fn check_invariants_inner(&mut self) -> Result<(), Violation> {
         let last = self.chain.last().clone();
         let full = Full::of(&last);
         let len = self.rc.len();
@@ -710,7 +721,9 @@ impl World {
             }
         }
 
+        self.judging = C02;
         self.check_valid(&last, "chain.last()")?;
+        self.judging = C05;
         if !self.on(C02) && !self.on(C05) && !hidden_consistent(&last, &full) {
             // the stored hash or an occupancy set no longer matches the squares: C02 and C05 report
             // that; under any other property the object is outside the library's contract from here
@@ -728,6 +741,7 @@ impl World {
         }
         self.record_position(&last, &full)?;
 
+        self.judging = C14;
         if self.on(C14) {
             let key = self.rc.keys[len].clone();
             let count = self.rc.count_key(&key);
